@@ -128,6 +128,19 @@ def run(ctx: core.Ctx):
                      note="croo must be the run of ones ending at the chronologically latest step")
         if g > max(longest_run(bits) if longest_run(bits) >= 2 else 0, 1):
             ctx.fail("croo<=lroo", dict(chrono=bits), g, "<= max(lroo,1)")
+    # croo on narrow input types: the count is not limited by the input's dtype (uint8 is what lroo requires; runs of 256 and more)
+    for dt in ("uint8", "int8", "int16", "int64", "bool"):
+        for run_len in (3, 127, 128, 255, 256, 299, 700):
+            n = run_len + 5
+            bits = [1, 0, 1, 1, 0] + [1] * run_len
+            da = xr.DataArray(np.array(bits, dtype=dt).reshape(n, 1, 1), dims=("time", "y", "x"),
+                              coords={"time": np.array([t0 + np.timedelta64(i, "D") for i in range(n)])})
+            g = int(np.asarray(da.hdc.algo.croo()).reshape(-1)[0])
+            ctx.case(("croo-dtype", dt, run_len), sample=dict(kernel="croo", dtype=dt, current_run=run_len))
+            ctx.count("croo input dtypes")
+            if g != run_len:
+                ctx.fail("croo", dict(dtype=dt, series=f"1,0,1,1,0 followed by {run_len} ones"), g, run_len,
+                         note="croo is the length of the run ending at the latest step, for runs of any length the axis allows")
     ctx.trusted += ["native model driver (lean_exe of Hdc/Model/Discrete.lean)", "harness/props/c18.py oracle"]
 
 
